@@ -297,6 +297,26 @@ Theorem C14_toggle_token : forall p t o f argv, classify p t = TOpt o f None -> 
   ap_occs p (t :: argv) = option_map (cons (o, None)) (ap_occs p argv).
 Proof. exact ap_occs_toggle. Qed.
 
+(* ... so that a toggle typed twice anywhere on a command line gives every toggle the value it has
+   when it is typed once *)
+Theorem C14_toggle_twice_is_once : forall p t o f a b c oa ob oc,
+  classify p t = TOpt o f None -> takes_arg o = false -> str_eqb [45; 45]%N t = false ->
+  ap_occs p a = Some oa -> ap_occs p b = Some ob -> ap_occs p c = Some oc ->
+  exists twice once,
+    ap_occs p (a ++ t :: b ++ t :: c)%list = Some twice /\ ap_occs p (a ++ t :: b ++ c)%list = Some once /\
+    forall d, existsb (occ_dest_is d) twice = existsb (occ_dest_is d) once.
+Proof. exact toggle_twice_is_once. Qed.
+
+(* non-vacuity of the toggle theorems: --skip_brute twice, once, not at all, and with a value *)
+Theorem C14_toggle_example :
+  m_options int_ascii (map lit ["--skip_brute"; "-r"; "X"; "--skip_brute"; "--all_lower"]%string) =
+  m_options int_ascii (map lit ["-r"; "X"; "--all_lower"; "--skip_brute"]%string) /\
+  option_map o_skip_brute (m_options int_ascii (map lit ["--skip_brute"; "--skip_brute"]%string)) = Some true /\
+  option_map o_skip_brute (m_options int_ascii (map lit ["--all_lower"]%string)) = Some false /\
+  m_options int_ascii (map lit ["--skip_brute=1"]%string) = None /\
+  classify guesser_parser (lit "--skip_brute") = TOpt o_skip_brute_opt (lit "--skip_brute") None.
+Proof. exact toggle_example. Qed.
+
 (* non-vacuity: --load --skip_brute -n 5 -s s1 against a session saved with rule R, skip_brute
    False, all_lower True *)
 Theorem C14_source_cli_example :
@@ -311,3 +331,4 @@ Print Assumptions C14_load_uses_saved_flags.
 Print Assumptions C14_save_load_round_trip.
 Print Assumptions C14_typed_flags_used.
 Print Assumptions C14_toggles_are_store_const.
+Print Assumptions C14_toggle_twice_is_once.
